@@ -26,9 +26,10 @@ PROBES_OPTIONAL = False
 RESERVED = ["let", "import", "self", "mod", "out", "assert", "true", "false", "NULL", "select", "func", "module", "map", "filter", "reduce",
             "include", "fail", "not", "in", "is", "as", "env", "convert", "constraint", "TRACE"]
 POSITIONS = ["top", "func", "module", "quoted", "lib", "format", "tuple_value", "list_value", "func_arg", "module_arg", "tuple_holding_env",
-             "null_compare", "null_compare_flipped", "select_on_null", "template_with_env_field"]
+             "null_compare", "null_compare_flipped", "select_on_null", "template_with_env_field", "filter_predicate", "module_param_int_default"]
 # positions whose value is a function of set/unset only (a comparison with NULL), not the variable's text
-NULL_TESTS = {"null_compare": (False, True), "null_compare_flipped": (True, False), "select_on_null": ("is-set", "is-null")}
+NULL_TESTS = {"null_compare": (False, True), "null_compare_flipped": (True, False), "select_on_null": ("is-set", "is-null"),
+              "filter_predicate": (["probe"], [])}
 VALUE_CLASSES = ["ascii", "empty", "blanks", "dquote", "squote", "dollar", "backquote", "backslash", "newline", "tab", "bmp", "astral",
                  "combining", "rtl", "long", "equals", "jsonish", "percent_at"]
 
@@ -148,7 +149,7 @@ def generate(rng, tier, idx):
     for i in range(nreads):
         if readable and not (unset_budget and rng.chance(35)):
             e = rng.choice(readable)
-            reads.append({"name": e["name"], "set": True, "pos": rng.choice(POSITIONS)})
+            reads.append({"name": e["name"], "set": True, "pos": rng.choice([p for p in POSITIONS if p != "module_param_int_default"])})
         elif unset_budget:
             unset_budget -= 1
             # (format renders NULL as the text "NULL"; what format does with NULL is not this property's business)
@@ -224,6 +225,11 @@ def render_programs(world):
             # inside "@{...}" the name env still means the environment; the argument's own field is item.env
             L.append('let v%d = "@{%s}" %% {env = {%s = "shadow-field"}, other = 1};' % (
                 i, s.replace('"', '\\"'), r["name"] if not needs_quote(r["name"]) else "x"))
+        elif pos == "filter_predicate":
+            L.append('let v%d = filter(func (x) => %s != NULL, ["probe"]);' % (i, s))
+        elif pos == "module_param_int_default":
+            # an unset variable handed to a module parameter whose default is an integer (NULL is acceptable there, a string would not be)
+            L.append("let srv%d = module {port = 8080} => { let r = mod.port; };\nlet v%d = srv%d{port = %s}.r;" % (i, i, i, s))
         elif pos == "null_compare":
             L.append("let v%d = %s == NULL;" % (i, s))
         elif pos == "null_compare_flipped":
